@@ -495,15 +495,25 @@ def r10_one_round_exactly_once(ctx):
                         "core": Obj("cascade.scheduler.core.ComponentCore", {"value": {T1: 1, T2: 2}})}, name="comp")
         env = {"state.components": [comp], "state.idle_workers": set(workers), "state.computable": len(tasks),
                "state.worker2task_overhead": {w: {T1: 1, T2: 2} for w in workers}}
-        ip = Interp(repo, call_models={"cascade.scheduler.assign.build_assignment": lambda run, a, k, n, f: ("ASSIGN", a[0], a[1])})
-        paths = ip.explore(fi, env=env, args={"tasks": list(tasks), "workers": list(workers), "component_id": 0})
+        # entered through assign_within_component (CPU-only tasks and workers: its GPU pass is empty, its CPU pass is the heuristic on all of them), so
+        # that the helper's own signature — component id or component object, extra options — is the code's business
+        ent = repo.func(f"{ASSIGN}.assign_within_component")
+        job = Obj("cascade.low.core.JobInstance", {"tasks": {t: Obj("cascade.low.core.TaskInstance", {"definition": Obj("cascade.low.core.TaskDefinition", {"needs_gpu": False})})
+                                                             for t in (T1, T2)}}, name="JOB")
+        envm = Obj("cascade.low.core.Environment", {"workers": {w: Obj("cascade.low.core.Worker", {"cpu": 1, "gpu": 0, "memory_mb": 1}) for w in workers}}, name="ENV")
+        ip = Interp(repo, call_models={"cascade.scheduler.assign.build_assignment": lambda run, a, k, n, f: ("ASSIGN", a[0], a[1])}, inline={fi.qual})
+        paths = ip.explore(ent, env=env, args={"workers": list(workers), "component_id": 0, "job": job, "env": envm})
         ctx.evals(len(paths))
         row = {"case": label}
         if len(paths) != 1:
             ctx.undecided("C02.R10", loc(fi), f"{label}: {len(paths)} paths on a concrete model ({[(d.key) for p in paths[:2] for d in p.decisions[:3]]})")
             continue
         p = paths[0]
-        ys = [e.data.get("value") for e in p.effects if e.kind == "yield"]
+        from ..stmts import _ConcreteIter as _CI
+        if p.exit[0] == "return" and isinstance(p.exit[1], _CI):
+            ys = list(p.exit[1].items)
+        else:
+            ys = [e.data.get("value") for e in p.effects if e.kind == "yield"]
         ys = [y for y in ys if isinstance(y, tuple) and len(y) == 3 and y[0] == "ASSIGN"]
         ws, ts = [y[1].name for y in ys], [y[2].name for y in ys]
         c2 = p.heap["state.components"][0]
@@ -556,13 +566,19 @@ def r12_one_transfer_per_host(ctx):
            "state.edge_i": {T1: {D}, T2: {D}}, "state.task_o": {T1: set(), T2: set()}, "state.edge_o": {}, "state.outputs": {},
            "state.worker2ds": ddict(dict, {W1: {}, W2: {}}), "state.host2ds": ddict(dict, {H1: {}, H2: {D: st("available")}}),
            "state.ds2host": ddict(dict, {D: {H2: st("available")}})}
-    ip = Interp(repo, inline={f"{ASSIGN}.build_assignment"})
-    paths = ip.explore(fi, env=env, args={"tasks": [T1, T2], "workers": [W1, W2], "component_id": 0})
+    # entered through assign_within_component with CPU-only tasks and workers (see R10)
+    ent = repo.func(f"{ASSIGN}.assign_within_component")
+    job = Obj("cascade.low.core.JobInstance", {"tasks": {t: Obj("cascade.low.core.TaskInstance", {"definition": Obj("cascade.low.core.TaskDefinition", {"needs_gpu": False})})
+                                                         for t in (T1, T2)}}, name="JOB")
+    envm = Obj("cascade.low.core.Environment", {"workers": {w: Obj("cascade.low.core.Worker", {"cpu": 1, "gpu": 0, "memory_mb": 1}) for w in (W1, W2)}}, name="ENV")
+    ip = Interp(repo, inline={f"{ASSIGN}.build_assignment", fi.qual})
+    paths = ip.explore(ent, env=env, args={"workers": [W1, W2], "component_id": 0, "job": job, "env": envm})
     ctx.evals(len(paths))
     if len(paths) != 1 or paths[0].exit[0] != "return":
         ctx.undecided("C02.R12", loc(fi), f"two consumers / two workers of one host: {[(p.exit[0], vkey(p.exit[1])[:60]) for p in paths][:3]}")
         return
-    ys = [e.data.get("value") for e in paths[0].effects if e.kind == "yield"]
+    from ..stmts import _ConcreteIter as _CI
+    ys = list(paths[0].exit[1].items) if isinstance(paths[0].exit[1], _CI) else [e.data.get("value") for e in paths[0].effects if e.kind == "yield"]
     preps = [list(y.fields.get("prep", y.kwargs.get("prep", []))) for y in ys if isinstance(y, Obj)]
     srcs = [[getattr(x[1], "name", vkey(x[1])) for x in pr] for pr in preps]
     remote = sum(1 for pr in srcs for h in pr if h == "H2")
